@@ -907,3 +907,89 @@ def lower14(ctx) -> List[Ob]:
         else:
             out.append(ok("LOWER-14", fn.qualname, key, ctx.where(fn, g), f"if {A.unparse(g.test)}: one successor kept, test wrapped in ast.Expr"))
     return out
+
+
+# ------------------------------------------------------------------ LOWER-15
+
+
+def _eval_arity(test: ast.AST, subj: str, r: int, v: int):
+    """three-valued evaluation of a code-generator arm test for a block with r raw and v visible successors"""
+    t = A.unparse(test)
+    if isinstance(test, ast.BoolOp):
+        vals = [_eval_arity(x, subj, r, v) for x in test.values]
+        if isinstance(test.op, ast.And):
+            return False if False in vals else (None if None in vals else True)
+        return True if True in vals else (None if None in vals else False)
+    if isinstance(test, ast.UnaryOp) and isinstance(test.op, ast.Not):
+        x = _eval_arity(test.operand, subj, r, v)
+        return None if x is None else (not x)
+    if t == f"{subj}.fallthrough":
+        return r == 1
+    if t == f"{subj}.is_exiting":
+        return v == 0
+    if t in (f"{subj}.jump_targets", f"{subj}._jump_targets"):
+        return (v if "._" not in t else r) > 0
+    if t == f"{subj}.backedges":
+        return r != v
+    if isinstance(test, ast.Compare) and len(test.ops) == 1 and isinstance(test.comparators[0], ast.Constant) and isinstance(test.comparators[0].value, int):
+        l = A.unparse(test.left)
+        k = test.comparators[0].value
+        n = None
+        if l == f"len({subj}.jump_targets)":
+            n = v
+        elif l == f"len({subj}._jump_targets)":
+            n = r
+        elif l == f"len({subj}.backedges)":
+            n = r - v
+        if n is not None:
+            op = test.ops[0]
+            return {ast.Eq: n == k, ast.NotEq: n != k, ast.Lt: n < k, ast.LtE: n <= k, ast.Gt: n > k, ast.GtE: n >= k}.get(type(op))
+    return None
+
+
+@rule("LOWER-15", 3, "a source block that still has a visible successor besides a declared back edge (an original latch that also leaves the loop) is never emitted as straight-line code: the code generator turns its test into a construct or refuses")
+def lower15(ctx) -> List[Ob]:
+    out: List[Ob] = []
+    cg = _codegen(ctx)
+    fn = cg[0] if isinstance(cg, tuple) else cg
+    subj = [p.arg for p in fn.params if p.arg != "self"][0]
+    # the arm for source blocks
+    top = None
+    for st in A.walk_no_nested(fn.node):
+        if isinstance(st, ast.If) and A.unparse(st.test) in (f"type({subj}) is PythonASTBlock", f"isinstance({subj}, PythonASTBlock)", f"type({subj}) == PythonASTBlock"):
+            top = st
+            break
+    if top is None or not top.body or not isinstance(top.body[0], ast.If):
+        out.append(unresolved("LOWER-15", fn.qualname, "source-block arms", ctx.where(fn), "the arm chain for PythonASTBlock was not found in the code generator"))
+        return out
+    arms = chain_arms(top.body[0])
+    for (r, v) in ((0, 0), (1, 1), (1, 0), (2, 2), (2, 1)):
+        key = f"block with {r} raw / {v} visible successors"
+        reached = []
+        for arm in arms:
+            val = True if arm.test is None else _eval_arity(arm.test, subj, r, v)
+            if val is False:
+                continue
+            reached.append(arm)
+            if val is True:
+                break
+        kinds = []
+        for arm in reached:
+            body = arm.body
+            rets = [s for s in A.walk_no_nested(ast.Module(body, [])) if isinstance(s, ast.Return)]
+            if any(isinstance(s, ast.Raise) for s in body) and not rets:
+                kinds.append("refused")
+            elif rets and all(A.unparse(x.value) == f"{subj}.tree" for x in rets):
+                kinds.append("plain")
+            else:
+                kinds.append("construct")
+        where = ctx.where(fn, reached[0].node if reached else top)
+        if not reached:
+            out.append(bad("LOWER-15", fn.qualname, key, ctx.where(fn, top), "no arm of the code generator takes this block: nothing is returned"))
+        elif (r, v) == (2, 1) and "plain" in kinds:
+            out.append(bad("LOWER-15", fn.qualname, key, where, "a block whose second successor is a declared back edge (an original latch that also leaves the loop) can reach the arm that emits its statements unchanged: its branch test is dropped and the generated loop never updates its continue flag (it does not terminate)"))
+        elif (r, v) == (2, 2) and "plain" in kinds:
+            out.append(bad("LOWER-15", fn.qualname, key, where, "a branching block can reach the arm that emits its statements unchanged: both arms are lost"))
+        else:
+            out.append(ok("LOWER-15", fn.qualname, key, where, "/".join(kinds)))
+    return out
